@@ -36,7 +36,11 @@ def build_mem(d):
         o <<= m[ra]
     for j in range(nw):
         wa, wd = pyrtl.Input(aw, 'wa%d' % j), pyrtl.Input(bw, 'wd%d' % j)
-        if d.get('enable', True):
+        en = d.get('enable', True)
+        if en in ('const0', 'const1') and j == 0:
+            # a port whose enable is tied off (constant 0: never writes; constant 1: always writes)
+            m[wa] <<= pyrtl.MemBlock.EnabledWrite(wd, pyrtl.Const(1 if en == 'const1' else 0, bitwidth=1))
+        elif en:
             we = pyrtl.Input(1, 'we%d' % j)
             m[wa] <<= pyrtl.MemBlock.EnabledWrite(wd, we)
         else:
@@ -123,6 +127,10 @@ def cases(tier, seed):
             out.append(dict(d, k='bmc_uninit', backend=be, K=3 if nw == 1 else 2))
     out.append({'fam': 'MEM', 'aw': 2, 'bw': 4, 'nr': 1, 'nw': 1, 'enable': False, 'k': 'step', 'backend': 'sim'})
     out.append({'fam': 'MEM', 'aw': 2, 'bw': 4, 'nr': 1, 'nw': 1, 'enable': False, 'k': 'step', 'backend': 'fast'})
+    for ek in ('const0', 'const1'):
+        for nw in (1, 2):
+            for be in BACKENDS:
+                out.append({'fam': 'MEM', 'aw': 2, 'bw': 3, 'nr': 1, 'nw': nw, 'enable': ek, 'k': 'step', 'backend': be})
     out.append({'fam': 'HELPER', 'k': 'chelper', 'limbs': 1, 'backend': 'compiled'})
     out.append({'fam': 'HELPER', 'k': 'chelper', 'limbs': 2, 'backend': 'compiled'})
     for data in ('list', 'short_list', 'dict', 'sparse_dict', 'func'):
@@ -158,7 +166,11 @@ def array_oracle(case, v, arr, t):
     new = arr
     ens = []
     for j in range(nw):
-        en = v.inp('we%d' % j, t, 1) == 1 if case.get('enable', True) else z3.BoolVal(True)
+        ek = case.get('enable', True)
+        if ek in ('const0', 'const1') and j == 0:
+            en = z3.BoolVal(ek == 'const1')
+        else:
+            en = v.inp('we%d' % j, t, 1) == 1 if ek else z3.BoolVal(True)
         new = z3.If(en, z3.Store(new, v.inp('wa%d' % j, t, aw), v.inp('wd%d' % j, t, bw)), new)
         ens.append((en, v.inp('wa%d' % j, t, aw)))
     distinct = [z3.Not(z3.And(e1, e2, a1 == a2)) for (e1, a1), (e2, a2) in itertools.combinations(ens, 2)]
@@ -375,7 +387,8 @@ def replay(cex):
             bad.append('cycle %d: read at the write address returned %d, array holds %d (write must take effect at the END of the cycle)'
                        % (t, trace['rdw'][t], arr.get(inp('wa0', t), 0)))
         for j in range(case['nw']):
-            if not case.get('enable', True) or inp('we%d' % j, t):
+            ek = case.get('enable', True)
+            if (ek == 'const1' and j == 0) or (not (ek in ('const0', 'const1') and j == 0) and (not ek or inp('we%d' % j, t))):
                 arr[inp('wa%d' % j, t)] = inp('wd%d' % j, t)
     got = mems.get('m', {})
     for a in range(min(1 << aw, 1024)):
